@@ -120,9 +120,10 @@ CLAIMS = [
                       "two projection-pattern elaborations fold in the same direction, and that block source order is the collector's "
                       "enumeration index. These are the structural content of 'thunks capture their lexical environment', 'do runs its bindee "
                       "before its tail', 'patterns bind by position', 'a destructor selects the same-named arm'.",
-        "level_note": "NOT decided: observational equality over runs; that the audited reference is CBPV (by inspection); desugaring "
-                      "order (application spines, parameter telescopes) and copattern elaboration are not covered. The golden references "
-                      "alarm on any semantic edit of eval.rs/link.rs arms, including a correct one, which then needs re-auditing.",
+        "level_note": "NOT decided: observational equality over runs; that the audited reference is CBPV (by inspection). Also audited: the "
+                      "desugarer's arms (spines, telescopes, placements) and the tuple agreement of copattern clauses; the rest of copattern "
+                      "elaboration is not covered. The audited references alarm on any semantic edit of an audited arm, including a correct "
+                      "one, which then needs re-auditing; added queries are tolerated.",
     },
     {
         "id": "C03",
